@@ -20,7 +20,27 @@ structure StWorld where
 
 def alSet {α} (l : List (String × α)) (k : String) (v : α) : List (String × α) := bset l k v
 
-def StWorld.fsOf (w : StWorld) (sid : String) : FS := (w.dir.lookup sid).getD {}
+/-- store/file `createFilenamePrefix` on the session names of the line protocol (`<SenderCompID>[.ss<sub>][.sl<loc>][.ts<sub>]
+    [.tl<loc>][.q<qualifier>]`, BeginString FIX.4.2, TargetCompID TW): the non-empty sender parts joined by `_`, the non-empty target
+    parts joined by `_`, the qualifier if any.  The files of a session are found under THIS key — which is not injective: a
+    SenderSubID `X` and a SenderLocationID `X` (likewise on the target side) give the same names. -/
+def filePrefixKey (sid : String) : String :=
+  let parts := sid.splitOn "."
+  let comp (tag : String) : Option String :=
+    (parts.drop 1).findSome? fun p => if p.startsWith tag && (tag != "q" || true) then some (p.drop tag.length).toString else none
+  let snd := [some (parts.headD ""), comp "ss", comp "sl"].filterMap id
+  let tgt := [some "TW", comp "ts", comp "tl"].filterMap id
+  let q := (parts.drop 1).findSome? fun p =>
+    if p.startsWith "q" then some (p.drop 1).toString else none
+  "-".intercalate (["FIX.4.2", "_".intercalate snd, "_".intercalate tgt] ++ (match q with | some x => [x] | none => []))
+
+-- the ambiguity behind the known finding `C16/sessions_share_files` (the real store gives both sessions these names), and the keys of
+-- ordinary sessions
+#guard filePrefixKey "R.slX" == "FIX.4.2-R_X-TW" && filePrefixKey "R.ssX" == "FIX.4.2-R_X-TW"
+#guard filePrefixKey "R.tlX" == filePrefixKey "R.tsX" && filePrefixKey "R.tlX" != filePrefixKey "R.tlY"
+#guard filePrefixKey "AB" == "FIX.4.2-AB-TW" && filePrefixKey "AB.ssS.slL.tsT.tlU.qQ" == "FIX.4.2-AB_S_L-TW_T_U-Q"
+
+def StWorld.fsOf (w : StWorld) (sid : String) : FS := (w.dir.lookup (filePrefixKey sid)).getD {}
 def StWorld.dbOf (w : StWorld) (sid : String) : Tables := (w.db.lookup sid).getD {}
 
 def parseStoreOp : List String → Option (String × Op)
@@ -64,7 +84,7 @@ def storeOpen (w : StWorld) (kind sid : String) : Option (StWorld × String) :=
             obsStr ⟨true, m.st.nextS, m.st.nextT, true, []⟩ none)
   | "file" | "filens" =>
       let f := FileW.open (kind == "file") (w.fsOf sid) w.clock
-      some ({ w with clock := f.clock, dir := alSet w.dir sid f.fs, stores := alSet w.stores sid (.file f.st) },
+      some ({ w with clock := f.clock, dir := alSet w.dir (filePrefixKey sid) f.fs, stores := alSet w.stores sid (.file f.st) },
             obsStr ⟨true, f.st.cache.nextS, f.st.cache.nextT, true, []⟩ (some (filesStr f.fs f.st.cache.ctime)))
   | "sql" =>
       let s := SqlW.open (w.dbOf sid) w.clock
@@ -80,7 +100,7 @@ def storeApply (w : StWorld) (sid : String) (o : Op) : Option (StWorld × String
       some ({ w with clock := m.clock, stores := alSet w.stores sid (.mem m.st) }, obsStr ob none)
   | some (.file st) =>
       let (f, ob) := (FileW.mk st (w.fsOf sid) w.clock).step o
-      some ({ w with clock := f.clock, dir := alSet w.dir sid f.fs, stores := alSet w.stores sid (.file f.st) },
+      some ({ w with clock := f.clock, dir := alSet w.dir (filePrefixKey sid) f.fs, stores := alSet w.stores sid (.file f.st) },
             obsStr ob (some (filesStr f.fs f.st.cache.ctime)))
   | some (.sql st) =>
       let (s, ob) := (SqlW.mk st (w.dbOf sid) w.clock).step o
